@@ -183,7 +183,7 @@ func evalNum(c CaseNum) Result {
 		} else {
 			classes = append(classes, "q:invalid")
 		}
-	case "port_hostport", "port_userhost", "port_params", "port_hdrs", "port_hostport_params", "port_digitpass", "port_digitpass6":
+	case "port_hostport", "port_userhost", "port_params", "port_hdrs", "port_hostport_params", "port_digitpass", "port_digitpass6", "port_numpass", "port_numpass6":
 		var uri string
 		switch c.Pos {
 		case "port_hostport":
@@ -198,6 +198,10 @@ func evalNum(c CaseNum) Result {
 			uri = "sip:bob:4you@h.example:" + string(d)
 		case "port_digitpass6":
 			uri = "sips:bob:65x@[::1]:" + string(d) + ";lr"
+		case "port_numpass": // an all-digit password looks like a port until the '@'
+			uri = "sip:bob:6553@h.example:" + string(d) + "?x=y"
+		case "port_numpass6":
+			uri = "sip:u:7@[2001:db8::1]:" + string(d)
 		default:
 			uri = "sip:host:" + string(d) + ";lr"
 		}
@@ -220,7 +224,7 @@ func evalNum(c CaseNum) Result {
 	return ok(nt, classes...)
 }
 
-var numPositions = []string{"cseq", "clen", "clen_msg", "expires", "expires_msg", "ctexp", "q", "port_hostport", "port_userhost", "port_params", "port_hdrs", "port_hostport_params", "port_digitpass", "port_digitpass6"}
+var numPositions = []string{"cseq", "clen", "clen_msg", "expires", "expires_msg", "ctexp", "q", "port_hostport", "port_userhost", "port_params", "port_hdrs", "port_hostport_params", "port_digitpass", "port_digitpass6", "port_numpass", "port_numpass6"}
 
 var C10Num = Register(&Check[CaseNum]{
 	Prop: "C10", Name: "C10.num",
